@@ -224,6 +224,8 @@ class Report:
             if o["status"] == "proved":
                 discharged += 1
                 by_backend[o["backend"]] = by_backend.get(o["backend"], 0) + 1
+            elif o["status"] == "refuted" and o["kind"] == "drift":
+                self.undecided.append(f"contract drift (assumed external contract no longer keyed to this text): {o['ident'][:200]}")
             elif o["status"] == "refuted":
                 wclass = o.get("exc", "")
                 kf = is_known(self.prop, o["ident"], wclass, self.known)
